@@ -565,6 +565,20 @@ theorem worker_is_runBisync (pol : Policy) (cfg : Cfg) (cur : Nat) (es : List En
     workerTarget t (runWorker true pol cfg cur st t es) = (runBisync pol cfg st t es).tgt :=
   runWorker_bisync pol cfg cur es st t h
 
+/-- **composition over key groups** (towards whole snapshots): a worker's run
+    over `a ++ b` is its run over `a`, then its run over `b` from the remembered
+    state and the target `a` left. Together with the per-group theorems — which
+    hold for EVERY remembered state `st` and every target — this carries the
+    three policy statements from one key group to any sequence of groups, and,
+    through the frame clauses, to keys of other groups. -/
+theorem runPlain_append (pol : Policy) (cfg : Cfg) (a b : List Entry) (st : RState) (t : Target)
+    (h : (runPlain pol cfg st t a).out = .ok) :
+    (runPlain pol cfg st t (a ++ b)).tgt =
+      (runPlain pol cfg (runPlain pol cfg st t a).st (runPlain pol cfg st t a).tgt b).tgt ∧
+    (runPlain pol cfg st t (a ++ b)).out =
+      (runPlain pol cfg (runPlain pol cfg st t a).st (runPlain pol cfg st t a).tgt b).out :=
+  runPlain_append_ok pol cfg a st t b h
+
 /-! ## non-vacuity: a split hash `h` (three chunks, expiry) meeting an old value with a TTL -/
 
 def exCmd (f v : UInt8) : Cmd := { name := [104, 115, 101, 116], args := [[104], [102, f], [118, v]] }
@@ -603,5 +617,19 @@ example : (runPlain .replace exCfg none exT [exE0, exE1, exE2]).tgt.get [104] =
 example : (runBisync .replace exCfg none exT [exE0, exE1, exE2]).tgt.get [104] =
     some { val := .native [exCmd 49 49, exCmd 50 50, exCmd 51 51], exp := 5000 } := by decide
 example : (runPlain .replace exCfg none exT [exR]).tgt.get [104] = some { val := .restored [4, 3], exp := 5000 } := by decide
+
+-- the target refuses the payload ("Bad data format"): RESTORE, RESTORE…REPLACE, then the expansion branch with DEL and PEXPIRE
+def exTBad : Target := { exT with bad := fun k => k == [104] }
+example : (runPlain .replace exCfg none exTBad [exR]).reqs =
+    [Req.restore [104] 4000 [4, 3] [] false, Req.restoreBad [104] 4000 [4, 3] [] true,
+     Req.exists [104], Req.del [104], Req.data (exCmd 49 49), Req.data (exCmd 50 50), Req.pexpire [104] 4000] := by decide
+example : (runPlain .replace exCfg none exTBad [exR]).tgt.get [104] =
+    some { val := .native [exCmd 49 49, exCmd 50 50], exp := 5000 } := by decide
+-- a stream with a consumer group: `XGROUP CREATE key …` is a command on the key
+example : cmdKey { name := sXGROUP, args := [[67, 82, 69, 65, 84, 69], [115], [103], [48, 45, 48]] } = [115] := by decide
+-- a fresh key under the bidirectional `error` policy: probe, then RESTORE without REPLACE
+example : (runBisync .error exCfg none { exT with ks := fun _ _ => none } [exR]).reqs =
+    [Req.exists [104], Req.multi, Req.marker, Req.restore [104] 4000 [4, 3] [] false, Req.exec] := by decide
+example : snapshotObj exCfg exT exE0 [exE1, exE2] = { val := .native [exCmd 49 49, exCmd 50 50, exCmd 51 51], exp := 5000 } := by decide
 
 end GunYu.Props.C20
